@@ -286,11 +286,23 @@ class Ctx:
         if z3.is_false(cond):
             return False
         sh = getattr(self.task, "shard", None)
+        forced = None
+        if sh is not None:
+            if isinstance(sh[0], str):
+                # shard by the first len(bits) decisions carrying a given tag (e.g. the first four `if` statements): stable when the number
+                # of decisions before them varies from path to path
+                if tag == sh[0]:
+                    k = getattr(self, "_tagged", 0)
+                    self._tagged = k + 1
+                    if k < len(sh[1]):
+                        forced = bool(sh[1][k])
+            elif sh[0] <= self.pos < sh[0] + len(sh[1]):
+                forced = bool(sh[1][self.pos - sh[0]])
         if self.pos < len(self.log):
             d = self.log[self.pos]
-        elif sh is not None and sh[0] <= self.pos < sh[0] + len(sh[1]):
-            # sharded exploration: inside the window this task follows its own bit pattern only (the other patterns are other tasks)
-            d = bool(sh[1][self.pos - sh[0]])
+        elif forced is not None:
+            # sharded exploration: at these decisions this task follows its own bit pattern only (the other patterns are other tasks)
+            d = forced
             if not self.feasible(cond if d else z3.Not(cond)):
                 raise PathEnd()
             self.log.append(d)
